@@ -443,6 +443,22 @@ type c08hdr struct {
 	Name     string
 	Level    string // service | method
 	Required bool
+	Format   string // "" | "uuid"
+}
+
+// c08hdrValue: the value a test sends for a declared header; a uuid-format header set through a typed
+// helper carries UPPER- and mixed-case hex digits (RFC 4122 readers accept them; both servers must agree)
+func c08hdrValue(h c08hdr, viaHelper bool) string {
+	if h.Format == "uuid" {
+		if viaHelper {
+			return "123E4567-E89B-12D3-A456-426614174ABc"
+		}
+		return "123e4567-e89b-12d3-a456-426614174000"
+	}
+	if viaHelper {
+		return "helper-value"
+	}
+	return "v-" + strings.ToLower(h.Name)
 }
 
 // c08headerUnit declares the same five headers with different requiredness: "required" (all),
@@ -452,7 +468,7 @@ func c08headerUnit(c *Ctx, l *lab.Lab, mode string) (*routeUnit, []c08hdr) {
 	pkg := "c08.hdr" + sfx
 	f := &spec.File{Path: "c08/hdr" + sfx + ".proto", Package: pkg, GoImport: "lab/gen/c08hdr" + sfx, GoName: "c08hdr" + sfx}
 	f.Messages = []*spec.Message{{Name: "HReq", Fields: []*spec.Field{spec.F("id", 1, spec.String)}}, {Name: "HResp", Fields: []*spec.Field{spec.F("echo", 1, spec.String), spec.F("num_val", 2, spec.Int64)}}}
-	decl := []c08hdr{{"X-API-Key", "service", true}, {"Authorization", "service", true}, {"X-Request-ID", "method", true}, {"x-lower", "method", true}, {"X-Multi-Word-Name", "method", true}}
+	decl := []c08hdr{{"X-API-Key", "service", true, ""}, {"Authorization", "service", true, ""}, {"X-Request-ID", "method", true, "uuid"}, {"x-lower", "method", true, ""}, {"X-Multi-Word-Name", "method", true, ""}, {"X-Trace-ID", "service", true, "uuid"}}
 	for i := range decl {
 		switch mode {
 		case "optional":
@@ -464,7 +480,7 @@ func c08headerUnit(c *Ctx, l *lab.Lab, mode string) (*routeUnit, []c08hdr) {
 	svc := &spec.Service{Name: "HelperService", BasePath: spec.S("/hh")}
 	m := &spec.Method{Name: "Ping", In: "." + pkg + ".HReq", Out: "." + pkg + ".HResp", HTTP: &spec.HTTP{Path: "/ping", Verb: 2}}
 	for _, d := range decl {
-		h := spec.Header{Name: d.Name, Type: "string", Required: d.Required}
+		h := spec.Header{Name: d.Name, Type: "string", Required: d.Required, Format: d.Format}
 		if d.Level == "service" {
 			svc.Headers = append(svc.Headers, h)
 		} else {
@@ -534,7 +550,7 @@ func c08headers(c *Ctx, u *routeUnit, decl []c08hdr, mode string, ch, node *lab.
 				var kv []map[string]string
 				for _, o := range decl {
 					if o.Name != h.Name && o.Required {
-						kv = append(kv, map[string]string{"K": o.Name, "V": "v-" + strings.ToLower(o.Name)})
+						kv = append(kv, map[string]string{"K": o.Name, "V": c08hdrValue(o, false)})
 					}
 				}
 				return kv
@@ -543,7 +559,7 @@ func c08headers(c *Ctx, u *routeUnit, decl []c08hdr, mode string, ch, node *lab.
 				m := map[string]string{}
 				for _, o := range decl {
 					if o.Name != h.Name && o.Required {
-						m[o.Name] = "v-" + strings.ToLower(o.Name)
+						m[o.Name] = c08hdrValue(o, false)
 					}
 				}
 				return m
@@ -555,7 +571,7 @@ func c08headers(c *Ctx, u *routeUnit, decl []c08hdr, mode string, ch, node *lab.
 				TS    map[string]any
 			}
 			var vs []variant
-			val := "helper-value"
+			val := c08hdrValue(h, true)
 			vs = append(vs, variant{Label: "go-client/per-call-helper", Go: map[string]any{"defhdr": others(), "helpers": []map[string]string{{"K": h.Name, "V": val}}}})
 			if h.Level == "service" {
 				vs = append(vs, variant{Label: "go-client/client-helper", Go: map[string]any{"defhdr": others(), "chelpers": []map[string]string{{"K": h.Name, "V": val}}}})
